@@ -690,6 +690,27 @@ where
         self.check_timeouts(None)
     }
 
+    /// Verification hook: `(subscription id, fabric index, peer node id, min interval)` of every
+    /// subscription in the table.
+    #[cfg(rs_matter_verif)]
+    pub fn verif_subscriptions(&self) -> std::vec::Vec<(u32, u8, u64, u16)> {
+        self.state.subscriptions.verif_snapshot()
+    }
+
+    /// Verification hook: the first phase of one iteration of the reporter loop (removal of the
+    /// expired subscriptions and of those whose fabric does not exist), followed by the same
+    /// re-persisting of the table as in the loop. Returns `true` if anything was removed.
+    #[cfg(rs_matter_verif)]
+    pub fn verif_reporter_purge(&self) -> bool {
+        let removed_any = self.remove_invalid_subscriptions(self.matter, Instant::now());
+
+        if removed_any {
+            self.persist_subscriptions();
+        }
+
+        removed_any
+    }
+
     fn check_timeouts(&self, exch_id: Option<ExchangeId>) -> Result<(), Error> {
         let mut notify_mdns = || self.matter.transport().notify_mdns_changed();
         let mut notify_change =
@@ -1296,42 +1317,7 @@ where
 
             // First remove all expired or no-longer valid subscriptions
 
-            let mut removed_any = false;
-            loop {
-                let removed = self
-                    .state
-                    .subscriptions
-                    .remove(&self.subscriptions_buffers, |sub| {
-                        if sub.is_expired(now) {
-                            return Some("expired");
-                        }
-
-                        matter.with_state(|state| {
-                            if state.fabrics.get(sub.ids().fab_idx).is_none() {
-                                return Some("fabric removed");
-                            }
-
-                            // A subscription is NOT dropped merely because the
-                            // session it was accepted on is gone (eviction,
-                            // peer-side re-handshake, unreachable peer, a received
-                            // Close, ...): reports route by `(fabric, node)` and a
-                            // fresh session is established on demand. A session
-                            // ending is a transport event, not a subscription
-                            // teardown. It ends only through its own lifecycle —
-                            // `max_int` liveness timeout (handled above as
-                            // "expired"), or the subscriber answering a report with
-                            // a non-success status (handled in the report loop, which
-                            // then purges the persisted record).
-                            None
-                        })
-                    });
-
-                removed_any |= removed;
-
-                if !removed {
-                    break;
-                }
-            }
+            let removed_any = self.remove_invalid_subscriptions(matter, now);
 
             // Keep the persisted set an exact mirror of the (now-smaller) table:
             // any dropped subscription's record is removed so it will not be
@@ -1413,6 +1399,51 @@ where
             // subscription, so the table does not accumulate stale promoted wildcards.
             self.state.subscriptions.purge_reported_changes();
         }
+    }
+
+    /// Remove all subscriptions which are expired or whose fabric does not exist (any more).
+    ///
+    /// The first phase of every iteration of the reporter loop. Returns `true` if any
+    /// subscription was removed.
+    fn remove_invalid_subscriptions(&self, matter: &Matter<'_>, now: Instant) -> bool {
+        let mut removed_any = false;
+        loop {
+            let removed = self
+                .state
+                .subscriptions
+                .remove(&self.subscriptions_buffers, |sub| {
+                    if sub.is_expired(now) {
+                        return Some("expired");
+                    }
+
+                    matter.with_state(|state| {
+                        if state.fabrics.get(sub.ids().fab_idx).is_none() {
+                            return Some("fabric removed");
+                        }
+
+                        // A subscription is NOT dropped merely because the
+                        // session it was accepted on is gone (eviction,
+                        // peer-side re-handshake, unreachable peer, a received
+                        // Close, ...): reports route by `(fabric, node)` and a
+                        // fresh session is established on demand. A session
+                        // ending is a transport event, not a subscription
+                        // teardown. It ends only through its own lifecycle —
+                        // `max_int` liveness timeout (handled above as
+                        // "expired"), or the subscriber answering a report with
+                        // a non-success status (handled in the report loop, which
+                        // then purges the persisted record).
+                        None
+                    })
+                });
+
+            removed_any |= removed;
+
+            if !removed {
+                break;
+            }
+        }
+
+        removed_any
     }
 
     /// Process one valid subscription, reporting the data to the peer.
